@@ -134,9 +134,14 @@ func TestCheck(t *testing.T) {
 				ei := outer.Find(tlswire.ExtECH)
 				outer.Exts = append(outer.Exts[:ei], outer.Exts[ei+1:]...)
 				if vi := outer.Find(tlswire.ExtSupportedVersions); vi >= 0 {
-					if rng.IntN(2) == 0 {
+					switch rng.IntN(3) {
+					case 0:
 						outer.Exts[vi] = tlswire.SupportedVersions(0x0303, 0x0302)
-					} else {
+					case 1:
+						// RFC 8701 reserved values are no protocol versions: {GREASE, TLS 1.2} does not offer TLS 1.3
+						g := uint16(rng.IntN(16))<<4 | 0x0a
+						outer.Exts[vi] = tlswire.SupportedVersions(g<<8|g, 0x0303)
+					default:
 						outer.Exts = append(outer.Exts[:vi], outer.Exts[vi+1:]...)
 					}
 				}
